@@ -774,6 +774,14 @@ class SqlalchemyRender:
             return sql_query, None
 
 
+def quote_literal(value, dialect):
+    # standard SQL: only the quote is special; MySQL additionally treats backslash as an escape character
+    value = str(value).replace("'", "''")
+    if getattr(dialect, 'name', None) == 'mysql':
+        value = value.replace('\\', '\\\\')
+    return "'{}'".format(value)
+
+
 def render_dml_query(statement, dialect):
 
     class LiteralCompiler(dialect.statement_compiler):
@@ -781,7 +789,7 @@ def render_dml_query(statement, dialect):
         def render_literal_value(self, value, type_):
 
             if isinstance(value, (str, dt.date, dt.datetime, dt.timedelta)):
-                return "'{}'".format(str(value).replace("'", "''"))
+                return quote_literal(value, dialect)
 
             return super(LiteralCompiler, self).render_literal_value(value, type_)
 
@@ -793,7 +801,7 @@ def render_ddl_query(statement, dialect):
 
         def render_literal_value(self, value, type_):
             if isinstance(value, (str, dt.date, dt.datetime, dt.timedelta)):
-                return "'{}'".format(str(value).replace("'", "''"))
+                return quote_literal(value, dialect)
 
             return super(LiteralCompiler, self).render_literal_value(value, type_)
 
